@@ -127,11 +127,11 @@ func init() {
 			if !limited {
 				// the destination is a writer of the verified packages built in this function: io.Copy is a loop of its Write
 				if info, ok := e.ifaces[dst]; ok {
-					if m := e.w.prog.LookupMethod(info.Dyn, nil, "Write"); m != nil && e.w.inScope(m) && m.Blocks != nil && len(m.Params) == 2 {
+					if m := e.w.methodOf(info.Dyn, "Write"); m != nil && e.w.inScope(m) && m.Blocks != nil && len(m.Params) == 2 {
 						// io.Copy uses src.WriteTo(dst) when the source has it (calls of dst.Write, modelled by the loop) and otherwise
 						// dst.ReadFrom(src) when the destination has it: a destination of the verified packages that offers ReadFrom
 						// is modelled on both paths
-						if rf := e.w.prog.LookupMethod(info.Dyn, nil, "ReadFrom"); rf != nil && e.w.inScope(rf) && rf.Blocks != nil && len(rf.Params) == 2 {
+						if rf := e.w.methodOf(info.Dyn, "ReadFrom"); rf != nil && e.w.inScope(rf) && rf.Blocks != nil && len(rf.Params) == 2 {
 							viaWrite := e.fresh(nm+".srcHasWriteTo", "Bool")
 							hA, hB := h.clone(), h.clone()
 							f.copyLoop(in, args, and(pc, viaWrite), hA, nm, resT, m, info.P)
